@@ -15,9 +15,9 @@ from the Go struct definitions and `msg:` tags on every run.
 * `state_roundtrip` — the 56-byte layout of `state.State`.
 * `migrate_preserves_common` + `gen_migrations_cover_common` — every field common to two consecutive versions of a
   versioned entity survives `MigrateFrom` (generic theorem + the extracted copy lists cover every common key).
-* `gen_schemas_classified` — 42 of the 45 generated schemas are `good` (versioned entities and nested wrappers
-  included: `decode_encode_wrapper`); the other three are exactly the ones that contain `node.Pool`, whose
-  hand-written `UnmarshalMsg` drops `Type` and `NodesMap`: `gen_node_pool_decode_loses` (finding).
+* `gen_schemas_classified` — all 45 generated schemas are `good` (versioned entities and nested wrappers included:
+  `decode_encode_wrapper`). Historical: until /repo 964b895 the three schemas containing `node.Pool` were not, because
+  its hand-written `UnmarshalMsg` dropped `Type` and `NodesMap` (`historical_node_pool_decode_loses`).
 -/
 namespace ZChain.Codec
 
@@ -144,40 +144,46 @@ theorem gen_migrations_cover_common : Gen.migrations.all migrationCovers = true 
 
 /-! ## the regenerated schemas -/
 
-/-- **gen_schemas_classified** (re-proved on every regeneration), in the order of `Gen.schemas`: 42 of the 45 stored
-types' schemas are `good`, so `decode_encode` applies to them as it is — including the versioned entities
-`StorageNode`, `StorageAllocation`, `WriteMarker` and the allocations that nest a `WriteMarker` wrapper. The three
-that are not are exactly the schemas that contain `node.Pool` — `minersc.GlobalNode` (position 29), `node.Pool` (43),
-`block.MagicBlock` (44) — whose hand-written `UnmarshalMsg` drops `Type` and `NodesMap` (finding; see
-`gen_node_pool_decode_loses`). A new struct with two fields under one key, a wrapper whose `version` key is not a
-string, or another decoder that drops fields makes this fail. -/
+/-- **gen_schemas_classified** (re-proved on every regeneration): ALL 45 stored types' schemas are `good`, so
+`decode_encode` applies to every one of them as it is — including the versioned entities `StorageNode`,
+`StorageAllocation`, `WriteMarker`, the allocations that nest a `WriteMarker` wrapper, and (since /repo 964b895,
+which made `Pool.UnmarshalMsg` restore `Type` and `NodesMap`) `node.Pool`, `block.MagicBlock` and
+`minersc.GlobalNode`. A new struct with two fields under one key, a wrapper whose `version` key is not a string, or a
+hand-written decoder that does not restore every encoded field makes this fail. -/
 theorem gen_schemas_classified :
-    Gen.schemas.map (fun s => good s.2) =
-      [true, true, true, true, true, true, true, true, true, true, true, true, true, true, true, true, true, true, true, true,
-       true, true, true, true, true, true, true, true, true, false, true, true, true, true, true, true, true, true, true, true,
-       true, true, true, false, false] := by
+    Gen.schemas.length = 45 ∧ Gen.schemas.all (fun s => good s.2) = true := by
   decide
-
-theorem gen_lossy_schema_names :
-    (Gen.schemas.map (·.1))[29]? = some "minersc.GlobalNode" ∧ (Gen.schemas.map (·.1))[43]? = some "node.Pool" ∧
-    (Gen.schemas.map (·.1))[44]? = some "block.MagicBlock" := by decide
 
 /-- instantiation of the generic theorem on the regenerated table -/
 theorem all_schemas_roundtrip (name : String) (t : Ty) (v : Val) (_hm : (name, t) ∈ Gen.schemas)
     (hg : good t = true) (hw : wt t v = true) : decode t (enc t v) = some v :=
   decode_encode t v hg hw
 
-/-! ### the source as found: `node.Pool` does not decode to what was encoded -/
+/-! ### historical: `node.Pool` before /repo 964b895
+
+Until 964b895 `Pool.UnmarshalMsg` (chaincore/node/node_pool.go) decoded into `poolDecode` and rebuilt `Nodes` but
+copied neither `Type` nor `NodesMap` into the receiver; the translator read that as `pstruct []` and the schemas
+`node.Pool`, `block.MagicBlock`, `minersc.GlobalNode` were not `good` (finding C08:decode-not-equal:node.Pool, fixed).
+The witness is kept on a frozen copy of the schema shape as it was then. -/
+
+/-- the shape of `node.Pool` as the translator read it before the repair: no field restored by the decoder -/
+def poolAsFound : Ty := mkPStruct [] [([84, 121, 112, 101], .int), ([78, 111, 100, 101, 115, 77, 97, 112], .map .int)]
 
 def tinyPool : Val := .arr (.cons (.int 1) (.cons (.map .nil) .nil))
 
-/-- **finding** (negation witness of `decode_encode` for `node.Pool`): a sharder pool (`Type = 1`) decodes to a pool
-with `Type = 0`; re-encoding gives different bytes. The harness replays it on the real `Pool.UnmarshalMsg`. -/
-theorem gen_node_pool_decode_loses :
-    wt Gen.node_Pool tinyPool = true ∧
-    (decode Gen.node_Pool (enc Gen.node_Pool tinyPool)).map (enc Gen.node_Pool) =
-      some (enc Gen.node_Pool (.arr (.cons (.int 0) (.cons (.map .nil) .nil)))) ∧
-    enc Gen.node_Pool (.arr (.cons (.int 0) (.cons (.map .nil) .nil))) ≠ enc Gen.node_Pool tinyPool := by
+/-- a decoder that restores no field loses the value: a sharder pool (`Type = 1`) decodes to `Type = 0` and re-encodes
+to different bytes; and such a schema is not `good`. -/
+theorem historical_node_pool_decode_loses :
+    wt poolAsFound tinyPool = true ∧ good poolAsFound = false ∧
+    (decode poolAsFound (enc poolAsFound tinyPool)).map (enc poolAsFound) =
+      some (enc poolAsFound (.arr (.cons (.int 0) (.cons (.map .nil) .nil)))) ∧
+    enc poolAsFound (.arr (.cons (.int 0) (.cons (.map .nil) .nil))) ≠ enc poolAsFound tinyPool := by
+  decide
+
+/-- the regenerated `node.Pool` schema now restores both fields and round-trips -/
+theorem gen_node_pool_roundtrips :
+    good Gen.node_Pool = true ∧
+    (decode Gen.node_Pool (enc Gen.node_Pool tinyPool)).map (enc Gen.node_Pool) = some (enc Gen.node_Pool tinyPool) := by
   decide
 
 /-! ## non-vacuity -/
